@@ -52,6 +52,9 @@ type mintHist struct {
 
 const nKeys = 8
 
+// probeEvery: re-submission probes after every n-th successful mint of a history
+var probeEvery = 3
+
 type keyPair struct {
 	scheme *encryption.BLS0ChainScheme
 	pk     string
@@ -84,17 +87,28 @@ func initKeys() {
 func mclient(i int) string { return ct.ID("zcn mint client", i) }
 func delegate(i int) string { return ct.ID("zcn delegate", i) }
 
+// tok: the model's token of an authorizer id = its rank among the eight ids as strings (the contract
+// walks the unique signatures in id order), 0 for the empty id
 func tok(id string) string {
 	if id == "" {
 		return "0"
 	}
+	rank := 1
+	found := false
 	for i := 1; i <= nKeys; i++ {
 		if keys[i].id == id {
-			return fmt.Sprint(i)
+			found = true
+		} else if keys[i].id < id {
+			rank++
 		}
 	}
-	return "99"
+	if !found {
+		return "99"
+	}
+	return fmt.Sprint(rank)
 }
+
+func tokOf(a int) string { return tok(keys[a].id) }
 
 func mwho(id string) string {
 	if id == zcnsc.ADDRESS {
@@ -277,11 +291,11 @@ func runMint(h mintHist) mintRes {
 				input, _ := json.Marshal(map[string]interface{}{"public_key": k.pk, "url": fmt.Sprintf("http://a%d", o.A),
 					"stake_pool_settings": map[string]interface{}{"delegate_wallet": delegate(o.A), "num_delegates": 5, "service_charge": 0.1}})
 				_, err, _ = exec(tm, i, sender, zcnsc.AddAuthorizerFunc, input, 0)
-				res.ops = append(res.ops, fmt.Sprintf("ZmRegister %s %d", vh.Bool(o.By == "owner"), o.A))
+				res.ops = append(res.ops, fmt.Sprintf("ZmRegister %s %s", vh.Bool(o.By == "owner"), tokOf(o.A)))
 			} else {
 				input, _ := json.Marshal(map[string]string{"id": k.id})
 				_, err, _ = exec(tm, i, sender, zcnsc.DeleteAuthorizerFunc, input, 0)
-				res.ops = append(res.ops, fmt.Sprintf("ZmDelete %s %d", vh.Bool(o.By != "stranger"), o.A))
+				res.ops = append(res.ops, fmt.Sprintf("ZmDelete %s %s", vh.Bool(o.By != "stranger"), tokOf(o.A)))
 			}
 			if err != nil {
 				res.outs = append(res.outs, "ZmFail")
@@ -296,7 +310,7 @@ func runMint(h mintHist) mintRes {
 			ctx := sc.NewCtx(base, int64(i+2), sc.Txn(encryption.Hash(fmt.Sprintf("mint txn %d", i)), zcnOwner, zcnsc.ADDRESS, 0, 0))
 			sp := zcnsc.NewStakePool()
 			key := stakepool.StakePoolKey(spenum.Authorizer, keys[o.A].id)
-			res.ops = append(res.ops, fmt.Sprintf("ZmStake %d %d", o.A, o.Amount))
+			res.ops = append(res.ops, fmt.Sprintf("ZmStake %s %d", tokOf(o.A), o.Amount))
 			if err := ctx.GetTrieNode(key, sp); err != nil {
 				res.outs = append(res.outs, "ZmFail")
 				continue
@@ -439,14 +453,19 @@ func runMint(h mintHist) mintRes {
 			}
 			// the model needs to know which signer the seeded draw picked; when nothing was credited it
 			// cannot be observed, any signer with the same effect is equivalent: take the first eligible-free one
-			pick := paidTo
-			if pick == 0 {
+			pick := "0"
+			if paidTo != 0 {
+				pick = tokOf(paidTo)
+			} else {
 				for j, id := range b.ids {
 					if j >= n {
 						break
 					}
+					if id == "" {
+						continue
+					}
 					if e, s, _ := poolTotal(base, id); e && (fee == 0 || s < h.MinStake) {
-						fmt.Sscan(tok(id), &pick)
+						pick = tok(id)
 						break
 					}
 				}
@@ -455,11 +474,14 @@ func runMint(h mintHist) mintRes {
 			for j, t := range tr {
 				trs[j] = fmt.Sprintf("(%s, %s, %s)", mwho(t[0]), mwho(t[1]), t[2])
 			}
-			res.ops = append(res.ops, fmt.Sprintf("ZmMint %d %s %d", 100+o.C, pl, pick))
-			res.outs = append(res.outs, fmt.Sprintf("(ZmMinted %s %d %d)", vh.List(trs), pick, credited))
+			res.ops = append(res.ops, fmt.Sprintf("ZmMint %d %s %s", 100+o.C, pl, pick))
+			res.outs = append(res.outs, fmt.Sprintf("(ZmMinted %s %s %d)", vh.List(trs), pick, credited))
 			// ---- the signatures bind txn id, amount, nonce and receiver: the same signatures with any of
 			// them changed must not mint (fresh nonce everywhere so that only the signatures can refuse)
 			for _, f := range []string{"txn", "amount", "nonce", "receiver"} {
+				if probeEvery > 1 && res.kinds["mint-ok"]%probeEvery != 1 {
+					break
+				}
 				v := o
 				p2 := payloadFor(o, fmt.Sprintf("0xeth%04d", o.Txn), o.Amount, o.Nonce+1000003, mclient(o.Recv))
 				sender := client
@@ -718,7 +740,7 @@ func mainMint(o vh.Opts) {
 	d.Ops = append(d.Ops, mintOp{K: "mint", C: 0, Recv: 0, Amount: 100, Nonce: 1, Txn: 1, Sigs: ok2, Seed: 9}, mintOp{K: "mint", C: 0, Recv: 0, Amount: 100, Nonce: 4, Txn: 4, Sigs: ok2, Seed: 9})
 	handle(d)
 	rnd := vh.NewRand(o.Seed).Fork() // Fork: NewRand(k) is NewRand(1) shifted by k-1 draws
-	for i := 0; i < o.N(220, 3000); i++ {
+	for i := 0; i < o.N(150, 3000); i++ {
 		handle(genMint(rnd))
 	}
 	rep.Note("directed: threshold 2 of 3, duplicate signer, nonce reuse across more than one partition (size 5) of minted nonces")
